@@ -110,6 +110,19 @@ def run(ck):
                   what=f'{ci.label}: arithmetic on the data is carried out in the integer dtype of the input ('
                        f'{unparse(ints[0]["node"], 70) if ints and ints[0].get("node") is not None else ""}): results depend on the width / signedness of the carrier '
                        '(wrap-around) instead of on the values')
+            # float32 arrays ("a NumPy array of any real dtype"): the data must be widened to float64 before it is added, differenced or
+            # compared - otherwise the flags depend on the rounding of the narrow type (a bound such as 35.7 is not a float32 number)
+            args, kw = build('ndarray_f4', 'dt64', p)
+            cf = Case(test, args, kw, n=len(p), pat={}, meta={'class': 'ndarray_f4'}, label=f'{test}({p!r}; data=float32 ndarray)')
+            of = run_case(ck, cf, allow_refused=True)
+            if of.kind == 'refused':
+                from ..qc import concrete_envs, concretised
+                of = run_case(ck, concretised(cf, next(concrete_envs([cf], ck.rng, 1))))
+            nar = [e for e in of.events if e['kind'] == 'narrow-float-arith']
+            ck.ob('C15.data', cf.label, not nar, key=f'{fn_key(cf)}:float32-array:arithmetic-in-narrow-float',
+                  what=f'{cf.label}: the data is used in its float32 width ('
+                       f'{unparse(nar[0]["node"], 70) if nar and nar[0].get("node") is not None else ""}): sums, differences and comparisons round differently '
+                       'from the float64 path every other carrier takes')
             if uses_time:
                 for tc in TIME_CARRIERS[1:]:
                     cx, ox = run_one('list_none', tc)
